@@ -222,6 +222,9 @@ pub fn shrink(f: Fmt, x: &LexNarsese) -> LexNarsese {
 }
 
 fn check(ctx: &mut Ctx, f: Fmt, x: &LexNarsese, family: &str) {
+    if ctx.report.evaluations % 4 == 0 {
+        something_fails_first((ctx.report.evaluations / 4) as usize);
+    }
     ctx.report.eval();
     ctx.report.bump(&format!("family.{}", family));
     ctx.report.bump(&format!("format.{}", f.name()));
@@ -304,6 +307,13 @@ pub fn run(ctx: &mut Ctx) {
         for f in ALL_FMT {
             let lg = LexGen::new(f, false);
             cases.extend((0..40usize).map(|i| (f, lg.narsese(&mut crng, 1 + i % 3))));
+            // (texts of 1 to 4 kB, of different lengths: a shared buffer that is only used above some size)
+            if let Some(c) = lg.vocab.connecters.first() {
+                for n in [120usize, 150, 190] {
+                    let t = LexTerm::new_compound(c.clone(), (0..n).map(|i| LexTerm::new_atom("", format!("abcdefg{}", i))).collect());
+                    cases.push((f, LexNarsese::Term(t)));
+                }
+            }
         }
         let rounds = if ctx.thorough { 60 } else { 6 };
         concurrent_family(ctx, "C02", "lexical format-then-parse", cases, rounds, |c| failure(c.0, &c.1));
